@@ -121,11 +121,13 @@ func GenCurves(t *rapid.T, label string) []uint16 {
 	if rapid.IntRange(0, 2).Draw(t, label+"-nil") != 0 {
 		return nil
 	}
-	all := []uint16{X25519, P256, P384, P521, X25519MLKEM768}
+	// all three TLS 1.3-only hybrid groups the package implements (each is a different
+	// code path: different classical component and KEM, own secret concatenation)
+	all := []uint16{X25519, P256, P384, P521, X25519MLKEM768, SecP256r1MLKEM768, SecP384r1MLKEM1024}
 	var l []uint16
 	for _, g := range all {
 		p := 2
-		if g == X25519MLKEM768 {
+		if IsHybrid(g) {
 			p = 5
 		}
 		if rapid.IntRange(0, p).Draw(t, label+"-take") == 0 {
